@@ -417,9 +417,8 @@ def run_config(config, bundle, request, world, stream, policy=None,
     text = request["text"]
     try:
         if config == "blocking-opt":
-            out.result = process_graphql_query(
-                bundle.schema, text, executor_cls=BlockingExecutor, **kw
-            )
+            # the documented blocking entry point (BlockingExecutor inside)
+            out.result = py_gql.graphql_blocking(bundle.schema, text, **kw)
             out.status = "ok"
         elif config == "blocking-gen":
             out.result = process_graphql_query(
@@ -435,7 +434,14 @@ def run_config(config, bundle, request, world, stream, policy=None,
                 ),
             )
 
+            use_graphql = (config == "asyncio-thread"
+                           and stream.below(2, "entry-point") == 1)
+
             async def main():
+                if use_graphql:
+                    # the documented asyncio entry point; AsyncIORuntime()
+                    # picks up the running (simulated) loop
+                    return await py_gql.graphql(bundle.schema, text, **kw)
                 r = process_graphql_query(
                     bundle.schema, text, runtime=rt, **kw
                 )
